@@ -111,6 +111,47 @@ partial def jQ (j : Json) : Except String Q := do
     return .bool (← subs "must") (← subs "should") (← subs "must_not") (← jFlts j "filter")
       (← optNat j "minimum_should_match")
   | "constant_score" => return .constantScore (← jFlt (← j.getObjVal? "filter"))
+  | "rank_feature" => return .rankFeature (toStr (← getStr j "field"))
+  | "function_score" =>
+    if getStrD j "boost_mode" "multiply" != "replace" then throw "unsupported: function_score boost_mode other than replace"
+    let mode ← match getStrD j "score_mode" "sum" with
+      | "sum" => pure SMode.sum
+      | "multiply" => pure SMode.multiply
+      | "max" => pure SMode.max
+      | "min" => pure SMode.min
+      | m => throw s!"unsupported: function_score score_mode {m}"
+    let fns ← (← getArr j "functions").toList.mapM (fun f => do
+      if (← getStr f "type") != "weight" then throw "unsupported: function_score function other than weight"
+      let w ← match (← f.getObjVal? "weight").getInt? with
+        | .ok w => pure w
+        | .error _ => throw "unsupported: non-integral weight"
+      let flt ← match getOpt f "filter" with
+        | none => pure none
+        | some v => do pure (some (← jFlt v))
+      pure ({ weight := w, filter := flt } : WFn))
+    if !(fns.any (fun w => w.filter.isNone)) then throw "unsupported: function_score without an unfiltered function"
+    let optInt (k : String) : Except String (Option Int) :=
+      match getOpt j k with
+      | none => pure none
+      | some v => match v.getInt? with
+        | .ok i => pure (some i)
+        | .error _ => throw s!"unsupported: non-integral {k}"
+    return .functionScore (← jQ (← j.getObjVal? "query")) fns mode (← optInt "max_boost") (← optInt "min_score")
+  | "script_score" =>
+    let script ← getStr j "script"
+    let inner ← jQ (← j.getObjVal? "query")
+    if script == "_score" then return .scriptScore inner none
+    -- `_score + 1 / (FIELD - K)`
+    let pre := "_score + 1 / ("
+    if script.startsWith pre && script.endsWith ")" then
+      let body := ((script.drop pre.length).dropRight 1).toString
+      match body.splitOn " - " with
+      | [f, k] =>
+        match k.toInt? with
+        | some kk => return .scriptScore inner (some (toStr f, kk))
+        | none => throw "unsupported: script"
+      | _ => throw "unsupported: script"
+    else throw "unsupported: script"
   | other => throw s!"unsupported query type {other}"
 
 def jDoc (j : Json) : Except String ADoc := do
@@ -225,6 +266,9 @@ def handle (req : Json) : Except String Json := do
       ("n_qualified", (quals.length : Nat)),
       ("expansions_complete", expansionsComplete c segs q),
       ("below_caps", m.groups.all (belowCaps c segs)),
+      ("root_chain", q.rootChain),
+      ("custom_drop_hit", ordsJ (segs.map (fun s => (List.range s.docs.length).filter (fun o =>
+        match s.docs[o]? with | some d => customDropHit c d true q | none => false)))),
       ("rx_prefix_ok", m.groups.all (rxPrefixOk c segs)),
       ("rx_prefix_miss", ordsJ (segs.map (fun s => (List.range s.docs.length).filter (fun o =>
         match s.docs[o]? with | some d => rxPrefixMiss c m d | none => false)))),
